@@ -383,8 +383,7 @@ Proof. reflexivity. Qed.
 Lemma gp_wlo : forall k s g, get_tpl k (with_last_ok s g) = get_tpl k s.
 Proof. reflexivity. Qed.
 Section Preservation.
-  Variable ttl : Z.
-  Hypothesis ttl_pos : 0 < ttl.
+  Variable ttl : Z.      (* any value: the invariant does not need 0 < ttl *)
 
   Lemma inv_advance : forall s d, Inv ttl s -> Inv ttl (step ttl s (AAdvance d)).
   Proof.
@@ -624,3 +623,280 @@ Section Preservation.
   Theorem run_inv : forall acts, Inv ttl (run ttl acts).
   Proof. intro acts. apply fold_inv, Inv_init. Qed.
 End Preservation.
+
+(* ---------------------------------------------------------------------------------------- *)
+(* the ghost of the model state is the specification-level ghost of the action sequence *)
+Definition linked (g : gst) (s : st) : Prop := g_now g = now s /\ g_ok g = last_ok s.
+
+Lemma step_linked : forall ttl g s a, linked g s -> linked (gstep g a) (step ttl s a).
+Proof.
+  intros ttl g s a [Hn Ho]. unfold linked. destruct a; simpl.
+  - destruct (add_other ttl k tag s) as (A & _ & _ & B & _). rewrite A, B, Hn, Ho. auto.
+  - destruct (del_other (fun _ => true) k s) as (A & _ & _ & _ & B). rewrite A, B, Hn, Ho. auto.
+  - auto.
+  - destruct (d <? 0); simpl; auto. rewrite Hn, Ho. auto.
+  - destruct (armed_of t s); auto. destruct (z <=? now s); simpl; auto.
+  - auto.
+  - destruct (take_cb c (inflight s)) as [[x rest]|]; auto.
+    destruct (c_now x); auto. destruct (get_timer (c_timer x) s); auto.
+    destruct (del_other (expired_at z) (tm_key t) (with_inflight s rest)) as (A & _ & _ & _ & B).
+    rewrite A, B. simpl. auto.
+Qed.
+
+Lemma fold_linked : forall ttl acts g s, linked g s ->
+  linked (fold_left gstep acts g) (fold_left (step ttl) acts s).
+Proof. induction acts as [|a r IH]; intros g s L; simpl; [exact L | apply IH, step_linked, L]. Qed.
+
+Lemma run_linked : forall ttl acts, linked (grun acts) (run ttl acts).
+Proof. intros. apply fold_linked. split; reflexivity. Qed.
+
+Lemma gstep_nodup : forall g a, NoDup (map fst (g_ok g)) -> NoDup (map fst (g_ok (gstep g a))).
+Proof.
+  intros g a H. destruct a; simpl; auto.
+  - apply NoDup_upd; [exact key_eqb_eq | exact H].
+  - apply NoDup_del; exact H.
+  - destruct (d <? 0); auto.
+Qed.
+
+(* ---------------------------------------------------------------------------------------- *)
+(* sorting and the boolean checks *)
+Lemma insert_k_perm : forall {V} (x : key * V) l, Permutation (insert_k x l) (x :: l).
+Proof.
+  induction l as [|y r IH]; simpl; auto.
+  destruct (key_leb (fst x) (fst y)); auto.
+  eapply perm_trans; [apply perm_skip; exact IH | apply perm_swap].
+Qed.
+Lemma sort_k_perm : forall {V} (l : list (key * V)), Permutation (sort_k l) l.
+Proof.
+  induction l as [|x r IH]; simpl; auto.
+  eapply perm_trans; [apply insert_k_perm | apply perm_skip; exact IH].
+Qed.
+
+Lemma lookup_sort_k : forall {V} (l : list (key * V)) k,
+  NoDup (map fst l) -> lookup key_eqb k (sort_k l) = lookup key_eqb k l.
+Proof.
+  intros V l k ND. symmetry. apply (lookup_perm key_eqb key_eqb_eq); auto.
+  apply Permutation_sym, sort_k_perm.
+Qed.
+
+Lemma nodupb_true : forall {A} (eqb : A -> A -> bool), (forall a b, eqb a b = true <-> a = b) ->
+  forall l, NoDup l -> nodupb eqb l = true.
+Proof.
+  intros A eqb Heq l. induction 1 as [|x r Hn ND IH]; simpl; auto.
+  rewrite IH, andb_true_r. apply negb_true_iff. destruct (existsb (eqb x) r) eqn:E; auto.
+  apply existsb_exists in E. destruct E as (y & Hy & Exy). apply Heq in Exy. subst. contradiction.
+Qed.
+
+Lemma NoDup_map_inj : forall {A B} (f : A -> B) (l : list A),
+  NoDup l -> (forall a b, In a l -> In b l -> f a = f b -> a = b) -> NoDup (map f l).
+Proof.
+  intros A B f l. induction 1 as [|x r Hn ND IH]; intros Hinj; simpl; constructor.
+  - intro H. apply in_map_iff in H. destruct H as (y & Hf & Hy).
+    assert (y = x) by (apply Hinj; simpl; auto). subst. contradiction.
+  - apply IH. intros a b Ha Hb. apply Hinj; simpl; auto.
+Qed.
+
+Lemma NoDup_of_keys : forall {K V} (l : list (K * V)), NoDup (map fst l) -> NoDup l.
+Proof.
+  induction l as [|x r IH]; simpl; intros H; constructor; inversion H; subst; auto.
+  intro Hx. apply H2. apply in_map. exact Hx.
+Qed.
+
+Lemma armed_list_In : forall tms t d, In (t, d) (armed_list tms) <->
+  exists tm, In (t, tm) tms /\ tm_armed tm = Some d.
+Proof.
+  intros tms t d. unfold armed_list. rewrite in_flat_map. split.
+  - intros ([t' tm] & Hin & H). simpl in H. destruct (tm_armed tm) eqn:E; simpl in H; [|contradiction].
+    destruct H as [H|[]]. inversion H. subst. exists tm. auto.
+  - intros (tm & Hin & E). exists (t, tm). split; auto. simpl. rewrite E. simpl. auto.
+Qed.
+
+Lemma armed_list_keys : forall tms t, In t (map fst (armed_list tms)) -> In t (map fst tms).
+Proof.
+  intros tms t H. apply in_map_iff in H. destruct H as ([t' d] & E & H). simpl in E. subst t'.
+  apply armed_list_In in H. destruct H as (tm & H & _). apply (in_map fst) in H. exact H.
+Qed.
+
+Lemma armed_list_nodup : forall tms, NoDup (map fst tms) -> NoDup (map fst (armed_list tms)).
+Proof.
+  induction tms as [|[t tm] r IH]; simpl; intros ND; [constructor|].
+  inversion ND as [|? ? Hn ND']. subst.
+  destruct (tm_armed tm); simpl; auto. constructor; auto.
+  intro H. apply Hn. apply armed_list_keys. exact H.
+Qed.
+
+Lemma lookup_armed_list : forall tms t, NoDup (map fst tms) ->
+  lookup Nat.eqb t (armed_list tms) =
+  match lookup Nat.eqb t tms with Some tm => tm_armed tm | None => None end.
+Proof.
+  intros tms t ND.
+  destruct (lookup Nat.eqb t tms) as [tm|] eqn:E.
+  - apply (lookup_In Nat.eqb nat_eqb_eq) in E.
+    destruct (tm_armed tm) as [d|] eqn:A.
+    + apply (In_lookup Nat.eqb nat_eqb_eq); [apply armed_list_nodup; exact ND|].
+      apply armed_list_In. exists tm. auto.
+    + destruct (lookup Nat.eqb t (armed_list tms)) as [d|] eqn:E2; auto.
+      apply (lookup_In Nat.eqb nat_eqb_eq) in E2. apply armed_list_In in E2.
+      destruct E2 as (tm' & Hin & A'). apply (In_lookup Nat.eqb nat_eqb_eq) in Hin; auto.
+      apply (In_lookup Nat.eqb nat_eqb_eq) in E; auto. congruence.
+  - apply (lookup_None Nat.eqb nat_eqb_eq). intro H. apply armed_list_keys in H.
+    apply (lookup_None Nat.eqb nat_eqb_eq) in E. contradiction.
+Qed.
+
+(* ---------------------------------------------------------------------------------------- *)
+(* the oracle holds on every observation of a state satisfying the invariant *)
+Lemma andb3_intro : forall a b c, a = true -> b = true -> c = true -> a && b && c = true.
+Proof. intros; subst; reflexivity. Qed.
+Lemma andb8_intro : forall a b c d e f g h, a = true -> b = true -> c = true -> d = true -> e = true ->
+  f = true -> g = true -> h = true -> a && b && c && d && e && f && g && h = true.
+Proof. intros; subst; reflexivity. Qed.
+Lemma check_obs_inv : forall ttl g s, Inv ttl s -> linked g s -> NoDup (map fst (g_ok g)) ->
+  check_obs ttl g (observe s) = true.
+Proof.
+  intros ttl g s I [Ln Lo] NDok.
+  destruct I as [I1 I2 I3 I4 I5 I6 I7 I8 I9 I10].
+  assert (SO : forall k, stored_obs (observe s) k = get_tpl k s).
+  { intro k. unfold stored_obs, observe. simpl. apply lookup_sort_k. exact I9. }
+  assert (ST : forall k p, In (k, p) (sort_k (tpls s)) -> get_tpl k s = Some p).
+  { intros k p H. apply (In_lookup key_eqb key_eqb_eq); auto.
+    eapply Permutation_in; [apply sort_k_perm | exact H]. }
+  assert (AL : forall t, lookup Nat.eqb t (armed_list (timers s)) = armed_of t s).
+  { intro t. unfold armed_of, get_timer. apply lookup_armed_list. exact I10. }
+  unfold check_obs. apply andb8_intro.
+  - simpl. apply Z.eqb_eq. auto.
+  - apply forallb_forall. intros [k p] Hin. simpl in Hin. specialize (ST k p Hin).
+    unfold check_tpl. rewrite Lo.
+    destruct (lookup key_eqb k (last_ok s)) as [t0|] eqn:L.
+    2:{ apply I5 in L. congruence. }
+    pose proof (I6 k t0 p L ST) as Hexp.
+    destruct (I2 k p ST) as (tm & G1 & K1 & DD).
+    apply andb3_intro.
+    + apply Z.eqb_eq. exact Hexp.
+    + simpl. rewrite AL. unfold armed_of. rewrite G1.
+      destruct DD as [A|(A & B & c0 & Hc0 & Gt & Gn)]; rewrite A.
+      * apply Z.eqb_eq. reflexivity.
+      * apply existsb_exists. exists c0. split; [exact Hc0 | apply Nat.eqb_eq; exact Gt].
+    + destruct (quiescent_obs (observe s)) eqn:Q; simpl; auto.
+      unfold quiescent_obs in Q. apply andb_true_iff in Q. destruct Q as [Q1 Q2]. simpl in Q1, Q2.
+      destruct DD as [A|(A & B & c0 & Hc0 & _)].
+      * rewrite forallb_forall in Q1. apply (Q1 (t_timer p, t_expiry p)).
+        apply armed_list_In. exists tm. split; auto.
+        apply (lookup_In Nat.eqb nat_eqb_eq). exact G1.
+      * destruct (inflight s); [contradiction | discriminate].
+  - apply forallb_forall. intros [k t0] Hin. unfold check_alive.
+    assert (L : lookup key_eqb k (last_ok s) = Some t0).
+    { rewrite <- Lo. apply (In_lookup key_eqb key_eqb_eq); auto. }
+    simpl (o_now _). destruct (now s <? t0 + ttl) eqn:E; simpl; auto.
+    apply Z.ltb_lt in E. destruct (I7 k t0 L E) as (p & G). rewrite SO, G. reflexivity.
+  - assert (H : forall ks, check_probes (observe s) ks (map (probe s) ks) = true).
+    { induction ks as [|k r IH]; simpl; auto. rewrite IH, andb_true_r.
+      unfold check_probe, probe. rewrite SO. destruct (get_tpl k s); auto. apply N.eqb_refl. }
+    apply H.
+  - apply forallb_forall. intros [t d] Hin. simpl in Hin. apply armed_list_In in Hin.
+    destruct Hin as (tm & Hin & A). apply (In_lookup Nat.eqb nat_eqb_eq) in Hin; auto.
+    destruct (I3 t tm d Hin A) as (p & G & T).
+    apply existsb_exists. exists (tm_key tm, p). split.
+    + simpl. eapply Permutation_in; [apply Permutation_sym, sort_k_perm|].
+      apply (lookup_In key_eqb key_eqb_eq). exact G.
+    + simpl. apply Nat.eqb_eq. exact T.
+  - apply (nodupb_true Nat.eqb nat_eqb_eq). simpl.
+    apply NoDup_map_inj.
+    + eapply Permutation_NoDup; [apply Permutation_sym, sort_k_perm | apply NoDup_of_keys; exact I9].
+    + intros [k1 p1] [k2 p2] H1 H2 E. simpl in E. apply ST in H1. apply ST in H2.
+      assert (k1 = k2) by (eapply timers_distinct; [apply I2; exact H1 | apply I2; exact H2 | exact E]).
+      subst. congruence.
+  - apply (nodupb_true key_eqb key_eqb_eq). simpl.
+    eapply Permutation_NoDup; [apply Permutation_map, Permutation_sym, sort_k_perm | exact I9].
+  - apply (nodupb_true Nat.eqb nat_eqb_eq). simpl. apply armed_list_nodup. exact I10.
+Qed.
+
+Lemma check_trace_inv : forall ttl acts g s, Inv ttl s -> linked g s -> NoDup (map fst (g_ok g)) ->
+  check_trace ttl g acts (trace ttl s acts) = true.
+Proof.
+  induction acts as [|a r IH]; intros g s I L ND; simpl; auto.
+  apply andb_true_iff. split.
+  - apply check_obs_inv; [apply step_inv; exact I | apply step_linked; exact L | apply gstep_nodup; exact ND].
+  - apply IH; [apply step_inv; exact I | apply step_linked; exact L | apply gstep_nodup; exact ND].
+Qed.
+
+Theorem oracle_holds : forall ttl acts, check_trace ttl ginit acts (trace ttl init acts) = true.
+Proof.
+  intros. apply check_trace_inv; [apply Inv_init | split; reflexivity | constructor].
+Qed.
+
+(* ---------------------------------------------------------------------------------------- *)
+(* the three clauses of C10, for every action sequence *)
+Definition quiescent (s : st) : Prop :=
+  (forall t d, armed_of t s = Some d -> now s < d) /\ inflight s = [].
+
+(* P1: no early drop *)
+Lemma no_early_drop_lemma : forall ttl acts k t0,
+  last_accept acts k = Some t0 -> g_now (grun acts) < t0 + ttl ->
+  exists p, get_tpl k (run ttl acts) = Some p /\ t_expiry p = t0 + ttl /\
+            probe (run ttl acts) k = Some (nrec (t_tag p)).
+Proof.
+  intros ttl acts k t0 L Hlt. destruct (run_linked ttl acts) as [Ln Lo].
+  pose proof (run_inv ttl acts) as I. unfold last_accept in L. rewrite Lo in L. rewrite Ln in Hlt.
+  destruct (inv_ok_alive _ _ I k t0 L Hlt) as (p & G). exists p. split; [exact G|]. split.
+  - eapply inv_ok_exp; eauto.
+  - unfold probe. rewrite G. reflexivity.
+Qed.
+
+(* a stored template is always the last accepted one, with the expiry that acceptance gave it *)
+Lemma stored_is_last_accept_lemma : forall ttl acts k p,
+  get_tpl k (run ttl acts) = Some p ->
+  exists t0, last_accept acts k = Some t0 /\ t_expiry p = t0 + ttl /\ t0 <= g_now (grun acts).
+Proof.
+  intros ttl acts k p G. destruct (run_linked ttl acts) as [Ln Lo].
+  pose proof (run_inv ttl acts) as I. unfold last_accept. rewrite Lo, Ln.
+  destruct (lookup key_eqb k (last_ok (run ttl acts))) as [t0|] eqn:L.
+  - exists t0. split; [reflexivity|]. split; [eapply inv_ok_exp; eauto | eapply inv_ok_past; eauto].
+  - apply (inv_ok_none _ _ I) in L. congruence.
+Qed.
+
+(* P2: once the lifetime is over and nothing is pending, the template is gone *)
+Lemma discarded_lemma : forall ttl acts k, quiescent (run ttl acts) ->
+  match last_accept acts k with
+  | Some t0 => t0 + ttl <= g_now (grun acts) -> get_tpl k (run ttl acts) = None
+  | None => True
+  end.
+Proof.
+  intros ttl acts k [Q1 Q2]. destruct (last_accept acts k) as [t0|] eqn:L; [|exact I].
+  intro Hge. destruct (get_tpl k (run ttl acts)) as [p|] eqn:G; [|reflexivity]. exfalso.
+  destruct (stored_is_last_accept_lemma ttl acts k p G) as (t0' & L' & E & _).
+  assert (t0' = t0) by congruence. subst t0'.
+  pose proof (run_inv ttl acts) as I. destruct (run_linked ttl acts) as [Ln _].
+  destruct (inv_tpl _ _ I k p G) as (tm & G1 & _ & [A|(_ & _ & c & Hc & _)]).
+  - assert (now (run ttl acts) < t_expiry p).
+    { apply (Q1 (t_timer p)). unfold armed_of. rewrite G1. exact A. }
+    lia.
+  - rewrite Q2 in Hc. contradiction.
+Qed.
+
+Lemma never_accepted_gone_lemma : forall ttl acts k,
+  last_accept acts k = None -> get_tpl k (run ttl acts) = None /\ probe (run ttl acts) k = None.
+Proof.
+  intros ttl acts k L. destruct (run_linked ttl acts) as [_ Lo].
+  unfold last_accept in L. rewrite Lo in L. apply (inv_ok_none _ _ (run_inv ttl acts)) in L.
+  split; [exact L | unfold probe; rewrite L; reflexivity].
+Qed.
+
+(* P3: timers *)
+Lemma timers_lemma : forall ttl acts, let s := run ttl acts in
+  (forall k p, get_tpl k s = Some p ->
+     armed_of (t_timer p) s = Some (t_expiry p) \/
+     (armed_of (t_timer p) s = None /\ exists c, In c (inflight s) /\ c_timer c = t_timer p)) /\
+  (forall t1 t2 tm1 tm2 d1 d2, get_timer t1 s = Some tm1 -> get_timer t2 s = Some tm2 ->
+     tm_armed tm1 = Some d1 -> tm_armed tm2 = Some d2 -> tm_key tm1 = tm_key tm2 -> t1 = t2) /\
+  (forall t d, armed_of t s = Some d -> exists k p, get_tpl k s = Some p /\ t_timer p = t).
+Proof.
+  intros ttl acts s. pose proof (run_inv ttl acts) as I. fold s in I. split; [|split].
+  - intros k p G. destruct (inv_tpl _ _ I k p G) as (tm & G1 & _ & DD). unfold armed_of. rewrite G1.
+    destruct DD as [A|(A & _ & c & Hc & Gt & _)]; [left; exact A | right; split; [exact A | exists c; auto]].
+  - intros t1 t2 tm1 tm2 d1 d2 G1 G2 A1 A2 EK.
+    destruct (inv_armed _ _ I t1 tm1 d1 G1 A1) as (p1 & P1 & T1).
+    destruct (inv_armed _ _ I t2 tm2 d2 G2 A2) as (p2 & P2 & T2).
+    rewrite EK in P1. congruence.
+  - intros t d A. unfold armed_of in A. destruct (get_timer t s) as [tm|] eqn:G; [|discriminate].
+    destruct (inv_armed _ _ I t tm d G A) as (p & P & T). eauto.
+Qed.
